@@ -20,7 +20,7 @@ RULE = ("E1+E3: ('rt', curve, key) for all 17 curves x 7 keys (scalar 1, n-1, 2 
         "private DER {SEC1, PKCS#8} x {named, explicit} x {uncompressed, compressed, hybrid}, PEM, raw; public DER/PEM x point forms x {named, "
         "explicit}; raw/uncompressed/compressed/hybrid strings: decode(encode(k)) == k and OpenSSL parses every DER to the same public point; "
         "('gen', curve, form) keys produced by OpenSSL (ecparam -genkey, pkcs8 -topk8, explicit parameters, compressed/hybrid points) decode to "
-        "the same key and canonical forms re-encode byte-identically; ('p256', key) the 27-byte header BEC2 assumes; ('prefix', curve, enc) EVERY "
+        "the same key and canonical forms re-encode byte-identically and explicit curve parameters agree field by field (optional seed ignored); ('p256', key) the 27-byte header BEC2 assumes; ('prefix', curve, enc) EVERY "
         "proper prefix and one-byte extension of every valid encoding must be rejected; ('mut', curve, enc, pos) EVERY position x {^01, ^80, 00, FF, "
         "+1} must decode or raise a documented error (UnexpectedDER, MalformedPointError, UnknownCurveError, ValueError, RuntimeError). "
         "Distinct = case tuples; decodes counted in 'measured'.")
@@ -248,6 +248,15 @@ def run_case(ctx, case):
             return o.viol("gen|reencode|pub", "%s: re-encoding is not byte-identical to OpenSSL's" % what)
         if form == "pub-compressed" and k.to_der("compressed") != der:
             return o.viol("gen|reencode|pub-compressed", "%s: compressed re-encoding is not byte-identical to OpenSSL's" % what)
+        if form == "pub-explicit":
+            own = k.to_der(curve_parameters_encoding="explicit")
+            try:
+                if explicit_fields(own) != explicit_fields(der):
+                    return o.viol("gen|explicit-params", "%s: the library's explicit curve parameters differ field by field from OpenSSL's (%r vs %r)" % (
+                        what, [len(x[1]) if isinstance(x, tuple) and isinstance(x[1], bytes) else x for x in explicit_fields(own)][2:4],
+                        [len(x[1]) if isinstance(x, tuple) and isinstance(x[1], bytes) else x for x in explicit_fields(der)][2:4]))
+            except (D.DerError, IndexError) as e:
+                return o.viol("gen|explicit-params-unparsable", "%s: explicit parameters not parsable: %r" % (what, e))
         return o
     if kind == "p256":
         cur = C.NIST256p
@@ -319,6 +328,16 @@ def run_case(ctx, case):
         o.extra = {"decodes": n}
         return o
     raise ValueError(case)
+
+
+def explicit_fields(spki_der):
+    """(version, field id, a, b, base point, order, cofactor) of the explicit ECParameters inside a SubjectPublicKeyInfo;
+    the optional seed is dropped (OpenSSL writes it for curves that have one, the library never does)."""
+    t, c, _ = D.read_tlv(spki_der)
+    alg = D.children(D.children(c)[0][1])
+    params = D.children(alg[1][1])
+    curve = D.children(params[2][1])
+    return (params[0], tuple(D.children(params[1][1])), curve[0], curve[1], params[3], params[4], params[5] if len(params) > 5 else None)
 
 
 def point_xy(cv, pt, size):
